@@ -6,6 +6,8 @@ from ..lib import call
 
 PROP = "C11"
 PLAN = {"quick": (1000, 400), "thorough": (72000, 3600)}
+LARGE = (0.02, 19)  # (share, largest size) of the large class of gen.kv: 17+ control points, degree up to 8
+STEP_BUDGET = 20_000_000  # loop line events per outermost call: ten times the default, for the large class
 RULE = ("case = (source polynomial curve C, target knot vector S on the same interval, optional interpolation nodes); "
         "classes: C in S (S is a refinement / elevation of C's space built by the reference model) and generic pairs with "
         "degrees 0..3, non uniform spans, different interval lengths, scalar / vector points, node sets of every admissible "
